@@ -36,6 +36,11 @@ func (s *screen) setCell(col int, row int, text Cell) {
 	if row >= s.rows {
 		return
 	}
+	if text.Width > 1 && col+text.Width > s.cols {
+		// A wide character in the last column would hang over the
+		// edge of the screen
+		return
+	}
 	s.buf[row][col] = text
 }
 
